@@ -36,7 +36,7 @@ func selectedPrefix(name string) bool {
 	return false
 }
 
-var tauClasses = []string{"random", "small", "1", "r-1", "unreduced", "negative", "alpha=-1"}
+var tauClasses = []string{"random", "small", "1", "0", "r-1", "unreduced", "negative", "alpha=-1"}
 
 func (e *env) secSRS() {
 	c, in, N := e.c, e.in, e.N
@@ -181,6 +181,9 @@ func (s *srsCtx) honest(rng *gen.Rng, p []*big.Int, shape string, root *big.Int,
 	zcls := []string{"0", "1", "r-1", "tau", "tau+1", "random"}
 	if root != nil {
 		zcls = append(zcls, "root")
+		if !c.Thorough() && n > 3 && n < s.size { // quick: the dense polynomial of the same length takes the other classes
+			zcls = []string{"root", "tau", "random"}
+		}
 	}
 	type opened struct{ h, v, z *big.Int }
 	var okTuples []opened
@@ -248,13 +251,18 @@ func (s *srsCtx) honest(rng *gen.Rng, p []*big.Int, shape string, root *big.Int,
 func (e *env) secHonest() {
 	c, in, N := e.c, e.in, e.N
 	rng := e.rng("honest")
-	sizes := []int{2, 3, 4, 17, 64}
+	type sc struct {
+		size int
+		cls  string
+	}
+	// every trapdoor class gets a string; the largest strings get a generic trapdoor (distinct powers)
+	sizes := []sc{{2, "alpha=-1"}, {3, "negative"}, {4, "unreduced"}, {17, "r-1"}, {64, "random"}}
 	if c.Thorough() {
-		sizes = append(sizes, 5, 65, 128, 257, 1024)
+		sizes = append(sizes, sc{5, "small"}, sc{33, "1"}, sc{65, "0"}, sc{128, "alpha=-1"}, sc{257, "random"}, sc{1024, "random"})
 	}
 	shapes := []string{"zero", "const-padded", "lead-zero", "sparse", "maxcoef", "monomial"}
-	for si, size := range sizes {
-		cls := tauClasses[si%len(tauClasses)]
+	for _, sz := range sizes {
+		size, cls := sz.size, sz.cls
 		s := e.newSRS(rng, size, cls, false)
 		if s == nil {
 			continue
